@@ -12,6 +12,16 @@ _ALPHA = None
 _ENABLED = None
 
 
+class Nondeterminism(Exception):
+    """Two replays of the same history on fresh objects ended in different
+    abstract states."""
+
+    def __init__(self, node, path, first, second):
+        super().__init__('replays of node %d differ' % node)
+        self.node, self.path, self.first, self.second = \
+            node, path, first, second
+
+
 def canon(x):
     return json.dumps(x, sort_keys=True, separators=(',', ':'))
 
@@ -78,9 +88,9 @@ def explore(factory, alphabet, enabled, workers=None, max_states=200000,
             chunk = max(1, len(tasks) // (workers * 4))
             for status, nid, res in pool.imap(_expand, tasks, chunksize=chunk):
                 if status == 'NONDET':
-                    raise RuntimeError(
-                        'harness nondeterminism replaying node %d: %r vs %r'
-                        % (nid, res, nodes[nid]))
+                    raise Nondeterminism(
+                        nid + 1, [alphabet[i] for i in paths[nid]],
+                        nodes[nid], res)
                 for ai, o, st in res:
                     k = canon(st)
                     j = index.get(k)
@@ -93,8 +103,15 @@ def explore(factory, alphabet, enabled, workers=None, max_states=200000,
                         nxt.append(j)
                         if len(nodes) > max_states:
                             if partial_ok:
-                                return {'nodes': nodes, 'paths': paths,
-                                        'partial': True}
+                                edges.append({'src': nid + 1, 'dst': j + 1,
+                                              'a': alphabet[ai],
+                                              'ai': ai + 1, 'out': o})
+                                out[nid].append(len(edges))
+                                pool.terminate()
+                                return {'nodes': nodes, 'out': out,
+                                        'edges': edges, 'paths': paths,
+                                        'depth': depth, 'partial': True,
+                                        'wall': time.time() - t0}
                             raise RuntimeError('state budget exceeded')
                     edges.append({'src': nid + 1, 'dst': j + 1,
                                   'a': alphabet[ai], 'ai': ai + 1, 'out': o})
